@@ -81,3 +81,20 @@ class TwoPartDahlquist(Problem):
         me = self.dtype_u(self.init)
         me[:] = np.sin(np.arange(self.n) + 1.0) + 1.0
         return me
+
+
+from pySDC.core.space_transfer import SpaceTransfer  # noqa: E402
+
+
+class IdentityTransferWithProject(SpaceTransfer):
+    """Identity space transfer (same problem on every level, coarsening in the nodes only) offering the `project` method
+    that pySDC's real `base_transfer_mass` calls; harness-owned stub."""
+
+    def project(self, F):
+        return type(F)(F)
+
+    def restrict(self, F):
+        return type(F)(F)
+
+    def prolong(self, G):
+        return type(G)(G)
